@@ -151,6 +151,11 @@ int main(int argc, char *argv[])
             cf_pdu = pdu;
         }
 
+        // The datagram must hold the common header that is inspected next
+        if (res < (int)(proc_bytes + AVTP_COMMON_HEADER_LEN)) {
+            continue;
+        }
+
         // Check if the packet is a control format packet (i.e. NTSCF or TSCF)
         subtype = Avtp_CommonHeader_GetSubtype((Avtp_CommonHeader_t*)cf_pdu);
         if (subtype == AVTP_SUBTYPE_TSCF){
@@ -159,6 +164,11 @@ int main(int argc, char *argv[])
         } else {
             proc_bytes += AVTP_NTSCF_HEADER_LEN;
             msg_length = Avtp_Ntscf_GetNtscfDataLength((Avtp_Ntscf_t*)cf_pdu);
+        }
+
+        // The control header and the fixed VSS header must be inside the datagram
+        if (res < (int)(proc_bytes + AVTP_VSS_FIXED_HEADER_LEN + sizeof(uint32_t))) {
+            continue;
         }
 
         // Check if the control packet payload is a ACF GPC.
@@ -172,7 +182,17 @@ int main(int argc, char *argv[])
         // Parse the VSS Packet and print contents on the STDOUT
         Vss_AddrMode_t addrMode;
         VssPath_t path;
+        char path_buffer[MAX_PDU_SIZE];
         addrMode = Avtp_Vss_GetAddrMode((Avtp_Vss_t*)acf_pdu);
+
+        // The path (and a scalar value behind it) must be inside the datagram
+        if (proc_bytes + AVTP_VSS_FIXED_HEADER_LEN + Avtp_Vss_CalcVssPathLength((Avtp_Vss_t*)acf_pdu)
+                + sizeof(float) > (uint64_t)res) {
+            continue;
+        }
+        if (addrMode == VSS_INTEROP_MODE) {
+            path.vss_interop_path.path = path_buffer;   // the decoder copies the path here
+        }
         Avtp_Vss_GetVssPath((Avtp_Vss_t*)acf_pdu, &path);
 
         if (addrMode == VSS_INTEROP_MODE) {
@@ -186,10 +206,14 @@ int main(int argc, char *argv[])
 
         VssData_t data;
         Vss_Datatype_t dt = Avtp_Vss_GetDatatype((Avtp_Vss_t*)acf_pdu);
-        Avtp_Vss_GetVssData((Avtp_Vss_t*)acf_pdu, &data);
 
+        // Only float values are shown; the other datatypes (strings and arrays
+        // need caller provided result objects) are not decoded by this example
         if (dt == VSS_FLOAT) {
+            Avtp_Vss_GetVssData((Avtp_Vss_t*)acf_pdu, &data);
             printf("VSS Value: %f\n", data.data_float);
+        } else {
+            printf("\n");
         }
 
     }
